@@ -97,7 +97,19 @@ def _boolop(op: ast.boolop, values: List[ast.AST]) -> ast.AST:
             flat += v.values
         else:
             flat.append(v)
-    return flat[0] if len(flat) == 1 else ast.BoolOp(op=op, values=flat)
+    # `x or False` / `x and True` say x (the truth value is all that is kept); a constant that decides the whole operation ends it
+    neutral = isinstance(op, ast.And)
+    kept: List[ast.AST] = []
+    for v in flat:
+        if isinstance(v, ast.Constant) and isinstance(v.value, bool):
+            if v.value is neutral:
+                continue
+            kept.append(v)
+            break
+        kept.append(v)
+    if not kept:
+        return ast.Constant(value=neutral)
+    return kept[0] if len(kept) == 1 else ast.BoolOp(op=op, values=kept)
 
 
 def if_convert(stmts: List[ast.stmt]) -> Optional[ast.AST]:
@@ -128,6 +140,13 @@ def if_convert(stmts: List[ast.stmt]) -> Optional[ast.AST]:
             env2 = dict(env)
             env2[tg.id] = _Subst(dict(env), {}).visit(copy.deepcopy(st.value))
             return conv(rest, env2)
+        if isinstance(st, ast.For) and not st.orelse and isinstance(st.target, ast.Name) and len(st.body) == 1 and isinstance(st.body[0], ast.If) \
+                and not st.body[0].orelse and len(st.body[0].body) == 1 and isinstance(st.body[0].body[0], ast.Return) \
+                and isinstance(st.body[0].body[0].value, ast.Constant) and isinstance(st.body[0].body[0].value.value, bool):
+            # `for x in it: if c: return K` is `if any(c for x in it): return K`
+            gen = ast.GeneratorExp(elt=st.body[0].test, generators=[ast.comprehension(target=st.target, iter=st.iter, ifs=[], is_async=0)])
+            found = ast.Call(func=ast.Name(id="any", ctx=ast.Load()), args=[gen], keywords=[])
+            return conv([ast.If(test=found, body=[st.body[0].body[0]], orelse=[])] + rest, env)
         if isinstance(st, ast.If):
             c = _Subst(dict(env), {}).visit(copy.deepcopy(st.test))
             a = conv(st.body + rest, env)
